@@ -115,6 +115,27 @@ def load_contracts():
                  "reads_it_in_the_dialect_data_csv_is_written_in": AS_SAVED},
         callee_variants={"ResultsManager.get_last_named_result": "found"},
         property_clauses={"reads_the_referenced_members_data_file": "C20", "reads_it_in_the_dialect_data_csv_is_written_in": "C20"}, **common))
+    # ---- which run directory a results reference names
+    for fn, last in (("_find_last", "True"), ("_find_first", "False")):
+        cs.append(Contract(target=f"{RM}::ResultsManager.{fn}", interface=True, types={"filename": "str", "instance": "str"},
+                           ensures={"resolved_now": f"same(result, ufun_val('run_dir_for_prefix', filename, instance, {last}))"}, returns="optstr", class_fields=CF,
+                           assumptions=[f"ResultsManager.{fn}(dir, prefix) is the {'latest' if last == 'True' else 'earliest'} run directory of dir whose name starts with prefix, "
+                                        "looked up in the directory as it is at the time of the call (os.listdir + _find_in_dir_names: C10, bounded)"]))
+    colon = "instance.find(':')"
+    cs.append(Contract(
+        target=f"{RM}::ResultsManager._find_instance", types={"filename": "str", "instance": "str"},
+        raises={"InputException": {"when": f"{colon} != -1 and (not fs_exists(filename) or (instance[{colon}:] != ':last' and instance[{colon}:] != ':first'))", "exact": True}},
+        ensures={"an_exact_run_directory_name_is_returned_as_it_is": f"implies({colon} == -1, result == instance)",
+                 "last_is_resolved_in_that_directory_at_the_time_of_the_call": f"implies({colon} != -1 and instance[{colon}:] == ':last', "
+                                                                               f"same(result, ufun_val('run_dir_for_prefix', filename, instance[0:{colon}], True)))",
+                 "first_is_resolved_in_that_directory_at_the_time_of_the_call": f"implies({colon} != -1 and instance[{colon}:] == ':first', "
+                                                                                f"same(result, ufun_val('run_dir_for_prefix', filename, instance[0:{colon}], False)))"},
+        covers={"exact": "result == '2031-05-17_10-00-10'", "last": "instance == '2031:last'"},
+        class_fields=CF, macros=MACROS, returns="optstr", native={"skip": True},
+        property_clauses={"an_exact_run_directory_name_is_returned_as_it_is": "C20", "last_is_resolved_in_that_directory_at_the_time_of_the_call": "C20,C10",
+                          "first_is_resolved_in_that_directory_at_the_time_of_the_call": "C20,C10"},
+        doc={"an_exact_run_directory_name_is_returned_as_it_is": "C20: 'a results reference used as a file name replays exactly the referenced member's data.csv' -- the caller joins the "
+                                                                 "returned name onto archive/<group>; returning a joined path doubles it under a relative archive path (fix 2b87a91)"}))
     return cs
 
 
@@ -130,4 +151,6 @@ LEVEL = "other"
 EXPLANATION = ("Proved: Reference._variable_value returns the stored final value whatever it is (0, False, '' included) and raises exactly when the variable is "
                "unknown; get_last_named_result returns the last added result. Bounded: source-mode preceding chains and references on the real CsvPaths. "
                "Proved too: CsvPaths._load_csvpath hands CsvPath.parse exactly '$' + <the predecessor's data.csv> + <match part> in source-mode preceding (and says so in the metadata), "
-               "'$' + <named file> otherwise, '$' + <referenced member's data.csv> for a results reference; breadth-first + preceding raises.")
+               "'$' + <named file> otherwise, '$' + <referenced member's data.csv> for a results reference; breadth-first + preceding raises; a data.csv is read in the "
+               "dialect it is written in; ResultsManager._find_instance returns an exact run directory name unchanged and resolves :last/:first in the given "
+               "directory at the time of the call.")
